@@ -135,12 +135,17 @@ def generate(rng, tier: str, index: int) -> dict:
             cmds.append({'k': 'blank'})
     chunks = [rng.choice([1, 2, 3, 5, 7, 16, 40, 100, 1000, 16384]) for _ in range(rng.randint(0, 200))]
     emit = [rng.choice([1, 3, 10, 50, 400, 100000]) for _ in range(rng.randint(1, 40))]
-    return {
+    plan = {
         'micro_seed': rng.randint(1, 1 << 48), 'knobs': knobs(rng), 'neighbors': nbrs, 'variants': variants, 'cmds': cmds,
         'chunks': chunks, 'emit': emit, 'emit_gap': rng.choice([0.0, 0.001, 0.01, 0.2]),
         'pipe': rng.choice([None, None, {'capacity': rng.choice([1, 5, 30, 200]), 'refill_every': rng.choice([0.01, 0.2, 1.0]), 'eagain': rng.randint(0, 5)}]),
         'sync_loss': rng.chance(0.12),
     }  # fmt: skip
+    if plan['pipe'] and any(c['k'] == 'long' for c in cmds):
+        # a very long line is echoed in the error reply (about 70 kB): the slow pipe must be able to drain it within the run
+        plan['pipe']['capacity'] = max(plan['pipe']['capacity'], 200)
+        plan['pipe']['refill_every'] = min(plan['pipe']['refill_every'], 0.2)
+    return plan
 
 
 def build_commands(plan: dict):
